@@ -29,6 +29,7 @@ import (
 	"github.com/influxdata/influxdb/pkg/radix"
 	intar "github.com/influxdata/influxdb/pkg/tar"
 	"github.com/influxdata/influxdb/pkg/tracing"
+	"github.com/influxdata/influxdb/pkg/verifhook"
 	"github.com/influxdata/influxdb/query"
 	"github.com/influxdata/influxdb/tsdb"
 	_ "github.com/influxdata/influxdb/tsdb/index"
@@ -726,6 +727,9 @@ func (e *Engine) Open() error {
 	if err := e.cleanup(); err != nil {
 		return err
 	}
+	if verifhook.Enabled {
+		verifhook.Emit("engine.open.cleanup", e.path)
+	}
 
 	fields, err := tsdb.NewMeasurementFieldSet(filepath.Join(e.path, "fields.idx"))
 	if err != nil {
@@ -748,15 +752,24 @@ func (e *Engine) Open() error {
 			return err
 		}
 	}
+	if verifhook.Enabled {
+		verifhook.Emit("engine.open.reloaded", e.path)
+	}
 
 	if e.WALEnabled {
 		if err := e.WAL.Open(); err != nil {
 			return err
 		}
 	}
+	if verifhook.Enabled {
+		verifhook.Emit("engine.open.wal", e.path)
+	}
 
 	if err := e.FileStore.Open(); err != nil {
 		return err
+	}
+	if verifhook.Enabled {
+		verifhook.Emit("engine.open.files", e.path)
 	}
 
 	e.Compactor.Open()
@@ -1631,6 +1644,9 @@ func (e *Engine) deleteSeriesRange(seriesKeys [][]byte, min, max int64) error {
 		return err
 	}
 
+	if verifhook.Enabled {
+		verifhook.Emit("engine.delete.tombstoned", e.path, min, max)
+	}
 	// find the keys in the cache and remove them
 	deleteKeys := make([][]byte, 0, len(seriesKeys))
 
@@ -1652,12 +1668,18 @@ func (e *Engine) deleteSeriesRange(seriesKeys [][]byte, min, max int64) error {
 	bytesutil.Sort(deleteKeys)
 
 	e.Cache.DeleteRange(deleteKeys, min, max)
+	if verifhook.Enabled {
+		verifhook.Emit("engine.delete.cache", e.path, len(deleteKeys))
+	}
 
 	// delete from the WAL
 	if e.WALEnabled {
 		if _, err := e.WAL.DeleteRange(deleteKeys, min, max); err != nil {
 			return err
 		}
+	}
+	if verifhook.Enabled {
+		verifhook.Emit("engine.delete.wal", e.path, len(deleteKeys))
 	}
 
 	// The series are deleted on disk, but the index may still say they exist.
@@ -1952,6 +1974,9 @@ func (e *Engine) WriteSnapshot() (err error) {
 	if err != nil {
 		return err
 	}
+	if verifhook.Enabled {
+		verifhook.Emit("engine.snapshot.taken", e.path, closedFiles, snapshot.Size())
+	}
 
 	if snapshot.Size() == 0 {
 		e.Cache.ClearSnapshot(true)
@@ -2012,6 +2037,9 @@ func (e *Engine) writeSnapshotAndCommit(log *zap.Logger, closedFiles []string, s
 		log.Info("Error writing snapshot from compactor", zap.Error(err))
 		return err
 	}
+	if verifhook.Enabled {
+		verifhook.Emit("engine.snapshot.written", e.path, newFiles)
+	}
 
 	e.mu.RLock()
 	defer e.mu.RUnlock()
@@ -2029,13 +2057,22 @@ func (e *Engine) writeSnapshotAndCommit(log *zap.Logger, closedFiles []string, s
 		return err
 	}
 
+	if verifhook.Enabled {
+		verifhook.Emit("engine.snapshot.replaced", e.path, newFiles)
+	}
 	// clear the snapshot from the in-memory cache, then the old WAL files
 	e.Cache.ClearSnapshot(true)
+	if verifhook.Enabled {
+		verifhook.Emit("engine.snapshot.cleared", e.path)
+	}
 
 	if e.WALEnabled {
 		if err := e.WAL.Remove(closedFiles); err != nil {
 			log.Info("Error removing closed WAL segments", zap.Error(err))
 		}
+	}
+	if verifhook.Enabled {
+		verifhook.Emit("engine.snapshot.walremoved", e.path, closedFiles)
 	}
 
 	return nil
